@@ -117,6 +117,9 @@ class Tmp:
 
 
 # ------------------------------------------------------------------ implementation adapters
+PRIOR = {}   # id(map) -> another scale under which every line is sampled right before the measured sampling
+
+
 def build_raster(case, tmp):
     import numpy as np
     from gscrib.heightmaps import RasterHeightMap
@@ -133,8 +136,23 @@ def build_raster(case, tmp):
         os.unlink(p)
     else:
         hm = RasterHeightMap(img)
+    prior = case.get("prior_scale")
+    if prior:
+        # the same map used before under another scale / tolerance: nothing remembered from then may show afterwards
+        hm.set_scale(float(prior))
+        hm.set_tolerance(float(case["tol"]) * 2)
+        for ln in case["lines"]:
+            try:
+                hm.sample_path(list(ln))
+            except Exception:  # noqa
+                pass
+        for x, y in case["queries"][:5]:
+            hm.get_depth_at(x, y)
     hm.set_scale(float(case["scale"]))
     hm.set_tolerance(float(case["tol"]))
+    PRIOR.clear()
+    if prior:
+        PRIOR[id(hm)] = float(prior)
     return hm, img
 
 
@@ -153,8 +171,20 @@ def build_sparse(case, tmp):
         os.unlink(p)
     else:
         hm = SparseHeightMap(data)
+    prior = case.get("prior_scale")
+    if prior:
+        hm.set_scale(float(prior))
+        hm.set_tolerance(float(case["tol"]) * 2)
+        for ln in case["lines"]:
+            try:
+                hm.sample_path(list(ln))
+            except Exception:  # noqa
+                pass
     hm.set_scale(float(case["scale"]))
     hm.set_tolerance(float(case["tol"]))
+    PRIOR.clear()
+    if prior:
+        PRIOR[id(hm)] = float(prior)
     return hm, data
 
 
@@ -174,6 +204,19 @@ def path_obs(hm, line):
     """(filtered, unfiltered) as lists of float triples, or the exception class name"""
     import numpy as np
 
+    prior = PRIOR.get(id(hm))
+    if prior:
+        # the very same line sampled under another scale and tolerance immediately before
+        sc, tol = hm._scale_z, hm._tolerance
+        try:
+            hm.set_scale(prior)
+            hm.set_tolerance(tol * 2)
+            hm.sample_path(list(line))
+        except Exception:  # noqa
+            pass
+        finally:
+            hm.set_scale(sc)
+            hm.set_tolerance(tol)
     try:
         out = hm.sample_path(list(line))
         full = hm._interpolate_line(np.asarray(line, dtype=float))
@@ -570,7 +613,8 @@ def gen_raster(rng):
         lines.append(ln)
     lines.append([0, rng.randint(0, h - 1), w - 1, rng.randint(0, h - 1)])  # a long traverse
     return {"kind": "raster", "gen": gen, "dtype": dtype, "img": img, "load": "png" if rng.random() < 0.3 else "array",
-            "scale": scale, "tol": tol, "queries": queries, "lines": lines, "badlines": gen_badlines(rng)}
+            "scale": scale, "tol": tol, "queries": queries, "lines": lines, "badlines": gen_badlines(rng),
+            **({"prior_scale": scale * rng.choice([0.25, 3.0])} if rng.random() < 0.3 else {})}
 
 
 def gen_points(rng):
@@ -628,7 +672,8 @@ def gen_sparse(rng):
         a, b = rng.sample(pts, 2)
         lines.append([a[0], a[1], b[0], b[1]])  # from one stored sample to another
     return {"kind": "sparse", "gen": gen, "points": data, "load": rng.choice(["array", "array", "csv", "csv", "tsv"]),
-            "scale": scale, "tol": tol, "queries": queries, "lines": lines, "badlines": gen_badlines(rng)}
+            "scale": scale, "tol": tol, "queries": queries, "lines": lines, "badlines": gen_badlines(rng),
+            **({"prior_scale": scale * rng.choice([0.25, 3.0])} if rng.random() < 0.3 else {})}
 
 
 def gen_badlines(rng):
